@@ -39,11 +39,12 @@ type planted struct {
 func NewCertConfig(name string, v params.YouVersion) (*Config, error) {
 	EnsureParams()
 	f := params.ACoCHTFrequency
-	p, err := NewConfigAt(name, v, f, nil)
+	// both rounds take their certificate stake look-back set from genesis, which carries a set of its own here
+	p, err := newConfigAt(name, v, f, nil, true)
 	if err != nil {
 		return nil, err
 	}
-	n, err := NewConfigAt(name, v, 2*f, nil)
+	n, err := newConfigAt(name, v, 2*f, nil, true)
 	if err != nil {
 		return nil, err
 	}
@@ -132,19 +133,21 @@ func (c *Config) buildCert(s Spec) (*Forged, error) {
 	hash := header.Hash()
 	goodPay := VotePayload(hash, cd.Round, ri)
 	badPay := VotePayload(hash, cd.Round, ri+7)
-	entry := func(m *Member, cr *Cred) listed {
-		return listed{Vote: ucon.SingleVote{VoterIdx: uint32(m.Index), Votes: cr.J, Proof: cr.Proof}, Signer: m, Sig: c.BlsSign(m, goodPay), Pay: goodPay}
+	entry := func(m *Member, idx int, cr *Cred) listed {
+		return listed{Vote: ucon.SingleVote{VoterIdx: uint32(idx), Votes: cr.J, Proof: cr.Proof}, Signer: m, Sig: c.BlsSign(m, goodPay), Pay: goodPay}
 	}
 	var pre, certs []listed
 	for i, m := range c.Voters {
 		if s.Subset&(1<<uint(i)) != 0 {
 			if cr := c.Sortition(m, c.LBSeed, ri, uint32(ucon.Precommit), c.CP.ValidatorThreshold, m.Stake); cr.J > 0 {
-				pre = append(pre, entry(m, cr))
+				pre = append(pre, entry(m, m.Index, cr))
 			}
 		}
 		if s.CertSub&(1<<uint(i)) != 0 {
-			if cr := c.Sortition(m, f.CertSeed, ri, uint32(ucon.Certificate), credTC, m.Stake); cr.J > 0 {
-				certs = append(certs, entry(m, cr))
+			// certificate votes are drawn against the set of the certificate stake look-back header
+			rec := c.CertView.Rec(m.Name)
+			if cr := c.SortitionIn(c.CertView.Total, m, f.CertSeed, ri, uint32(ucon.Certificate), credTC, rec.Stake); cr.J > 0 {
+				certs = append(certs, entry(m, rec.Index, cr))
 			}
 		}
 	}
